@@ -411,7 +411,7 @@ fn fixed_cases() -> Vec<(String, String)> {
 }
 
 pub fn generate(tier: &str, seed: u64) -> Vec<(String, String)> {
-    let (nwit, nwat) = if tier == "thorough" { (1500, 700) } else { (150, 60) };
+    let (nwit, nwat) = if tier == "thorough" { (6000, 2500) } else { (150, 60) };
     let mut out = fixed_cases();
     let mut r = Rng::new(seed);
     for _ in 0..nwit { out.push(("wit".into(), gen_wit(&mut r))); }
